@@ -125,6 +125,8 @@ def serverJoinOne (c : Ctx) (m : IrcMsg) (channelname : String) : Res Ctx := do
   | some tid =>
     let lc := chanToLower channelname
     let existed := (getChan c lc).isSome
+    if !existed && c.st.channels.length ≥ c.st.config.maxChannels && c.st.config.maxChannels > 0 then
+      return sendSvc c (srv c "403" [pn, channelname, "No such channel"])
     let ch : Channel := (getChan c lc).getD { name := channelname }
     let ch := { ch with nicks := AMap.set ch.nicks nick { chanop := !existed } }
     let c := putChan c lc ch
@@ -327,6 +329,9 @@ def cmdServerSvsjoin (c : Ctx) (_sid : Id) (m : IrcMsg) : Res Ctx := do
       return sendSvc c (srv c "403" [pn, channelname, "No such channel"])
     let lc := chanToLower channelname
     let existed := (getChan c lc).isSome
+    if !existed && c.st.channels.length ≥ c.st.config.maxChannels && c.st.config.maxChannels > 0 then
+      let pn ← pfxName m
+      return sendSvc c (srv c "403" [pn, channelname, "No such channel"])
     let ch : Channel := (getChan c lc).getD { name := channelname }
     let c := putChan c lc ch
     if AMap.contains ch.nicks nick then return c
